@@ -94,6 +94,10 @@ var TSABehaviours = []string{
 	"untrusted-root", "certificates-omitted", "only-leaf-included",
 	"leaf-eku-not-critical", "leaf-eku-extra", "leaf-ku-keyencipherment", "leaf-ca-true", "leaf-ku-absent",
 	"leaf-ku-contentcommitment-only", "leaf-weak-key-rsa1024", "leaf-weak-key-p224", "root-x509-version-1",
+	// a root that names itself as issuer under a SHA-1 label (nothing can show it signed itself);
+	// a TSA leaf with an empty subject name (and a critical subjectAltName);
+	// an issuing CA whose extended key usage confines it to code signing
+	"root-self-issued-sha1-label", "leaf-empty-subject", "ca-eku-codesigning-only",
 	"ca-ku-absent", "ca-no-certsign", "ca-pathlen-too-small",
 	"token-content-type-data", "signed-attributes-missing", "message-digest-wrong", "signature-broken", "signing-cert-hash-wrong",
 	"tstinfo-version-2", "gentime-not-utc", "tsa-chain-expired", "tsa-chain-not-yet-valid",
@@ -162,6 +166,13 @@ func tsaChain(n int, defect string) *pki.Chain {
 		leaf.Key = pki.K("p224", 0)
 	case "ocsp-pointer":
 		leaf.OCSP = []string{"http://" + TSAOCSPHost}
+	case "leaf-empty-subject":
+		leaf.SubjectDER = []byte{0x30, 0x00}
+		name := "tsa.c15.test"
+		gn := append([]byte{0x82, byte(len(name))}, name...)
+		leaf.Extra = append(leaf.Extra, pkix.Extension{Id: asn1.ObjectIdentifier{2, 5, 29, 17}, Critical: true, Value: append([]byte{0x30, byte(len(gn))}, gn...)})
+	case "ca-eku-codesigning-only":
+		ca.EKU = []x509.ExtKeyUsage{x509.ExtKeyUsageCodeSigning}
 	case "untrusted-root":
 		specs[n-1].CN = "tsa-other-root"
 		specs[n-1].Key = pki.K("p256", 9)
@@ -201,6 +212,11 @@ func tsaChain(n int, defect string) *pki.Chain {
 	if cleanLeaf != nil {
 		c.Certs[0] = cleanLeaf
 	}
+	if defect == "root-self-issued-sha1-label" {
+		if r, err := pki.RelabelSignature(c.Certs[n-1]); err == nil {
+			c.Certs[n-1] = r
+		}
+	}
 	if defect == "root-x509-version-1" && n >= 2 {
 		// the root re-made as a version 1 certificate (same name, same key)
 		if v1, err := pki.V1RootNamed(specs[n-1].Key, c.Certs[n-1].RawSubject); err == nil {
@@ -223,7 +239,7 @@ func NewTSA(behaviour string, n int) *TSA {
 		// the authority the "untrusted-root" cases meet, asked by a caller who
 		// does trust its root
 		t.chain = tsaChain(n, "untrusted-root")
-	case "leaf-ku-contentcommitment-only", "leaf-weak-key-rsa1024", "leaf-weak-key-p224", "root-x509-version-1":
+	case "leaf-ku-contentcommitment-only", "leaf-weak-key-rsa1024", "leaf-weak-key-p224", "root-x509-version-1", "root-self-issued-sha1-label", "leaf-empty-subject", "ca-eku-codesigning-only":
 		t.chain = tsaChain(n, behaviour)
 	case "untrusted-root", "leaf-eku-not-critical", "leaf-eku-extra", "leaf-ku-keyencipherment", "leaf-ca-true", "leaf-ku-absent", "ca-ku-absent", "ca-no-certsign", "ca-pathlen-too-small", "tsa-chain-expired", "tsa-chain-not-yet-valid":
 		t.chain = tsaChain(n, behaviour)
